@@ -112,17 +112,52 @@ theorem handleFile_fresh {st : St} {np : Str} {q : Path} {n : Str} (mode : Nat) 
     Bool.false_eq_true, ↓reduceIte]
   rfl
 
-/-- end of the data of a file that was just created (`old` contents empty), no write faults: it holds
-exactly `w` -/
+/-- a file of `n` bytes fits the receiver's file size limit (always, when there is none) -/
+def Opts.fitsB (o : Opts) (n : Nat) : Bool :=
+  match o.fsize with
+  | none => true
+  | some l => decide (n ≤ l)
+
+theorem fits_facts {w : Str} (h : o.fitsB w.length = true) :
+    o.writable w = w ∧ o.writeFails w = false ∧ ∀ cur, o.truncFails cur w.length = false := by
+  unfold Opts.fitsB at h
+  unfold Opts.writable Opts.writeFails Opts.truncFails
+  cases hl : o.fsize with
+  | none => simp
+  | some l =>
+    simp only [hl, decide_eq_true_eq] at h
+    refine ⟨List.take_of_length_le h, by simp; omega, fun cur => by simp; omega⟩
+
+theorem toobig_facts {w : Str} (h : o.fitsB w.length = false) :
+    ∃ l, o.fsize = some l ∧ l < w.length ∧ o.writable w = w.take l ∧
+      o.truncFails (w.take l).length w.length = true := by
+  unfold Opts.fitsB at h
+  cases hl : o.fsize with
+  | none => simp [hl] at h
+  | some l =>
+    simp only [hl, decide_eq_false_iff_not] at h
+    refine ⟨l, rfl, by omega, by simp [Opts.writable, hl], ?_⟩
+    simp [Opts.truncFails, hl, List.length_take]
+    omega
+
+theorem set_same (fs : FS) (p : Path) (nd : Node) (h : fs p = some nd) : fs.set p nd = fs := by
+  funext x
+  by_cases e : x = p
+  · simp [FS.set, e, h]
+  · simp [FS.set, e]
+
+/-- end of the data of a file that was just created (`old` contents empty) and fits the file size
+limit: it holds exactly `w` -/
 theorem afterData_created {st : St} {p : Path} {np : Str} {mode : Nat} {tm : Option Time} {count : Nat}
-    {pr wr w : Str} (hnf : o.fsize = none) (hf : st.fs p = some (.file mode tm []))
+    {pr wr w : Str} (hfit : o.fitsB w.length = true) (hf : st.fs p = some (.file mode tm []))
     (hw : (if count ≠ 0 then pr ++ wr else wr) = w.reverse) :
     afterData o st p np (w.length : Int) count pr wr =
       { st with fs := st.fs.set p (.file mode none w), phase := .resp np .no } := by
+  obtain ⟨f1, f2, f3⟩ := fits_facts hfit
   unfold afterData
   have hlt : ¬ ((w.length : Int) < 0) := by omega
-  simp only [collected, hw, List.reverse_reverse, hlt, ↓reduceIte, Int.toNat_natCast, Opts.writable,
-    Opts.truncFails, Opts.writeFails, hnf, Bool.false_eq_true]
+  simp only [collected, hw, List.reverse_reverse, hlt, ↓reduceIte, Int.toNat_natCast, f1, f2, f3,
+    Bool.false_eq_true]
   congr 1
   by_cases he : w = []
   · subst he
@@ -138,6 +173,32 @@ theorem afterData_created {st : St} {p : Path} {np : Str} {mode : Nat} {tm : Opt
     rw [h1, h2]
     have h3 : fileData (st.fs.set p (.file mode none w)) p = w := by simp [fileData, set_self]
     rw [h3, resize_exact, setData_of_file (set_self _ _ _), set_set]
+
+/-- the same for a file larger than the limit: the write that crosses the limit is short, the later
+ones fail, `ftruncate` fails: the file keeps the first `limit` bytes and ONE error record is sent -/
+theorem afterData_toobig {st : St} {p : Path} {np : Str} {mode : Nat} {count : Nat}
+    {pr wr w : Str} (hfit : o.fitsB w.length = false) (hf : st.fs p = some (.file mode none []))
+    (hw : (if count ≠ 0 then pr ++ wr else wr) = w.reverse) :
+    afterData o st p np (w.length : Int) count pr wr =
+      { st with fs := st.fs.set p (.file mode none (o.writable w)), out := .err .trunc :: st.out,
+                phase := .resp np .displayed } := by
+  obtain ⟨l, hl, hlt', hwr, htf⟩ := toobig_facts hfit
+  unfold afterData
+  have hlt : ¬ ((w.length : Int) < 0) := by omega
+  simp only [collected, hw, List.reverse_reverse, hlt, ↓reduceIte, Int.toNat_natCast, hwr]
+  have h1 : fileData st.fs p = [] := by simp [fileData, hf]
+  have hfs1 : (if (w.take l).isEmpty then st.fs else setData st.fs p (overwrite (fileData st.fs p) (w.take l))) =
+      st.fs.set p (.file mode none (w.take l)) := by
+    by_cases he : w.take l = []
+    · simp only [he, List.isEmpty_nil, ↓reduceIte]
+      exact (set_same _ _ _ hf).symm
+    · have hne : (w.take l).isEmpty = false := by simpa using he
+      simp only [hne, Bool.false_eq_true, ↓reduceIte]
+      rw [h1, setData_of_file hf, overwrite_nil]
+  rw [hfs1]
+  have h3 : fileData (st.fs.set p (.file mode none (w.take l))) p = w.take l := by simp [fileData, set_self]
+  rw [h3, htf]
+  simp only [↓reduceIte]
 
 end PdshVerif.Pcp
 
@@ -227,12 +288,13 @@ def recvFile (o : Opts) (m : Nat) (tm : Option Time) (d : Str) : Node :=
 directory `q`), with `name` not yet present, the bytes `C<mode> <size> <name>\n <data> \0` install
 exactly that file, are acknowledged twice and touch only `q/name`; a pending `T` record becomes the
 file's modification time. -/
-theorem feed_C (hc : CntOk o) (hnf : o.fsize = none) {st : St} {f : Frame} {rest : List Frame} {q : Path}
+theorem feed_C (hc : CntOk o) {st : St} {f : Frame} {rest : List Frame} {q : Path}
     (hph : st.phase = .start) (hs : st.stack = f :: rest) (htd : f.targisdir = true)
     (hr : resolve st.fs o.cwd f.targ = some q) (hd : st.fs.isDir q = true)
     {n : Str} (hn : GoodName n) (hfresh : st.fs (q ++ [n]) = none)
     (hlen : f.targ.length + n.length + 1 < PCP_PATH_MAX)
-    (m : Nat) (d : Str) (hsz : d.length < 2 ^ 63) (hus : usecOk f.atm = true ∧ usecOk f.mt = true) :
+    (m : Nat) (d : Str) (hsz : d.length < 2 ^ 63) (hfit : o.fitsB d.length = true)
+    (hus : usecOk f.atm = true ∧ usecOk f.mt = true) :
     (cRecord m d.length n ++ d ++ [0]).foldl (step o) st =
       { st with
         fs := (st.fs.bumpDir q).set (q ++ [n]) (recvFile o m (if f.setimes then some f.mt else none) d)
@@ -270,7 +332,7 @@ theorem feed_C (hc : CntOk o) (hnf : o.fsize = none) {st : St} {f : Frame} {rest
     by_cases hd0 : d = []
     · subst hd0
       simp only [List.length_nil, Int.natCast_zero, Int.le_refl, ↓reduceIte, List.foldl_nil]
-      exact afterData_created (w := []) hnf hfs2p (by simp)
+      exact afterData_created (w := []) hfit hfs2p (by simp)
     · have hpos : 0 < d.length := List.length_pos_iff.2 hd0
       have hnle : ¬ ((d.length : Int) ≤ 0) := by omega
       simp only [hnle, ↓reduceIte, Int.toNat_natCast]
@@ -285,7 +347,7 @@ theorem feed_C (hc : CntOk o) (hnf : o.fsize = none) {st : St} {f : Frame} {rest
           simp only [phaseOk, BUFSZ_eq] at *
           exact ⟨by omega, by omega, by omega, by omega, fun hlt => by omega⟩) rfl rfl
       rw [he]
-      exact afterData_created hnf hfs2p (by simpa using hw)
+      exact afterData_created hfit hfs2p (by simpa using hw)
   rw [hdata]
   -- the response byte
   simp only [List.foldl_cons, List.foldl_nil]
@@ -318,6 +380,83 @@ theorem feed_C (hc : CntOk o) (hnf : o.fsize = none) {st : St} {f : Frame} {rest
     have hfe : ({ f with setimes := false } : Frame) = f := by cases f; simp_all
     simp only [hf', Bool.false_and, Bool.false_eq_true, ↓reduceIte, St.reply, recvFile, hset, List.nil_append]
     rw [hfe]
+
+/-- **One file that is larger than the receiver's file size limit** (write fault in the middle of its
+data): all of its bytes and the response byte are consumed, the record is acknowledged, ONE error
+record is sent, the file holds the bytes that fitted, the pending times are not applied, and the
+level continues at the next record. -/
+theorem feed_C_toobig (hc : CntOk o) {st : St} {f : Frame} {rest : List Frame} {q : Path}
+    (hph : st.phase = .start) (hs : st.stack = f :: rest) (htd : f.targisdir = true)
+    (hr : resolve st.fs o.cwd f.targ = some q) (hd : st.fs.isDir q = true)
+    {n : Str} (hn : GoodName n) (hfresh : st.fs (q ++ [n]) = none)
+    (hlen : f.targ.length + n.length + 1 < PCP_PATH_MAX)
+    (m : Nat) (d : Str) (hsz : d.length < 2 ^ 63) (hfit : o.fitsB d.length = false)
+    (hus : usecOk f.atm = true ∧ usecOk f.mt = true) :
+    (cRecord m d.length n ++ d ++ [0]).foldl (step o) st =
+      { st with
+        fs := (st.fs.bumpDir q).set (q ++ [n]) (.file (maskOff (m &&& RCP_MODEMASK) o.eumask) none (o.writable d))
+        out := .err .trunc :: .ack :: st.out
+        touched := (q ++ [n]) :: st.touched
+        phase := .start } := by
+  have hB := BUFSZ_eq
+  obtain ⟨hnl, _, hlen2⟩ := ctlBody_props (m &&& RCP_MODEMASK) d.length hn hsz
+  -- the control record
+  rw [List.foldl_append, List.foldl_append, cRecord_eq,
+    foldl_line st hph cC _ (by decide) hnl hlen2,
+    handleRecord_ctl hs (classify_ctl cC (Or.inl rfl) _ _ hn (and_mask_lt m) hsz)
+      (nameOk_plain _ hn.plain) htd]
+  have hbeq : (cC == cD) = false := by decide
+  simp only [hbeq, Bool.false_eq_true, ↓reduceIte]
+  have hrj := resolve_join hr hd hn.plain hn.short hlen
+  rw [handleFile_fresh _ _ hrj hfresh (trailingSlash_join _ hn.plain)]
+  -- abbreviations
+  generalize hfs2 : (st.fs.bumpDir q).set (q ++ [n]) (Node.file (maskOff (m &&& RCP_MODEMASK) o.eumask) none []) = fs2
+  have hfs2p : fs2 (q ++ [n]) = some (.file (maskOff (m &&& RCP_MODEMASK) o.eumask) none []) := by
+    rw [← hfs2]; exact set_self _ _ _
+  -- the state after the data
+  have hdata : d.foldl (step o)
+      (if (d.length : Int) ≤ 0 then
+        afterData o { st with fs := fs2, touched := (q ++ [n]) :: st.touched, out := .ack :: st.out }
+          (q ++ [n]) (joinName f.targ n) d.length 0 [] []
+      else
+        { st with fs := fs2, touched := (q ++ [n]) :: st.touched, out := .ack :: st.out,
+                  phase := .data (q ++ [n]) (joinName f.targ n) d.length (d.length : Int).toNat
+                    (min BUFSZ (d.length : Int).toNat) (min BUFSZ (d.length : Int).toNat) 0 [] [] }) =
+      { st with fs := fs2.set (q ++ [n]) (.file (maskOff (m &&& RCP_MODEMASK) o.eumask) none (o.writable d)),
+                touched := (q ++ [n]) :: st.touched, out := .err .trunc :: .ack :: st.out,
+                phase := .resp (joinName f.targ n) .displayed } := by
+    by_cases hd0 : d = []
+    · subst hd0
+      exfalso
+      unfold Opts.fitsB at hfit
+      cases hl : o.fsize <;> simp [hl] at hfit
+    · have hpos : 0 < d.length := List.length_pos_iff.2 hd0
+      have hnle : ¬ ((d.length : Int) ≤ 0) := by omega
+      simp only [hnle, ↓reduceIte, Int.toNat_natCast]
+      obtain ⟨c', pr', wr', he, hw⟩ := foldl_data hc d
+        { st with fs := fs2, touched := (q ++ [n]) :: st.touched, out := .ack :: st.out,
+                  phase := .data (q ++ [n]) (joinName f.targ n) d.length d.length
+                    (min BUFSZ d.length) (min BUFSZ d.length) 0 [] [] }
+        (q ++ [n]) (joinName f.targ n) d.length d.length
+        (min BUFSZ d.length) (min BUFSZ d.length) 0 [] [] rfl (by
+          have h1 := hc.pos
+          have h2 := hc.mult
+          simp only [phaseOk, BUFSZ_eq] at *
+          exact ⟨by omega, by omega, by omega, by omega, fun hlt => by omega⟩) rfl rfl
+      rw [he]
+      exact afterData_toobig hfit hfs2p (by simpa using hw)
+  rw [hdata]
+  -- the response byte
+  simp only [List.foldl_cons, List.foldl_nil]
+  unfold step
+  simp only [↓reduceIte]
+  unfold afterResponse
+  simp only [hs]
+  have hset : fs2.set (q ++ [n]) (.file (maskOff (m &&& RCP_MODEMASK) o.eumask) none (o.writable d)) =
+      (st.fs.bumpDir q).set (q ++ [n]) (.file (maskOff (m &&& RCP_MODEMASK) o.eumask) none (o.writable d)) := by
+    rw [← hfs2, set_set]
+  have hb : (Wrerr.displayed == Wrerr.no) = false := by decide
+  simp only [hb, Bool.and_false, Bool.false_eq_true, ↓reduceIte, hset]
 
 end PdshVerif.Pcp
 
